@@ -194,6 +194,8 @@ type TypeInv struct {
 }
 
 type Contracts struct {
+	GhostVars   map[string]*TypeExpr
+	GhostVarPkg map[string]string
 	Templates   []*FuncContract
 	Funcs       map[string]*FuncContract
 	Specs       map[string]*SpecFunc // by name (global namespace; also pkg.name)
@@ -722,7 +724,7 @@ var clauseKeywords = map[string]bool{
 	"invariant": true, "ghost": true, "step": true, "exit": true, "func": true, "spec": true,
 	"lemma": true, "axiom": true, "field": true, "type": true, "noreturn": true, "allocates": true,
 	"trigger": true, "params": true, "opaque": true, "havocs": true, "maypanic": true,
-	"package": true, "private": true, "template": true, "framed": true, "notemplate": true,
+	"ghostvar": true, "package": true, "private": true, "template": true, "framed": true, "notemplate": true,
 }
 
 type rawLine struct {
@@ -812,7 +814,7 @@ func parseParams(p *parser) []QVar {
 }
 
 func loadContracts(root string, shorts []string) (*Contracts, error) {
-	C := &Contracts{Funcs: map[string]*FuncContract{}, Specs: map[string]*SpecFunc{}, GhostFields: map[string]*GhostField{}}
+	C := &Contracts{Funcs: map[string]*FuncContract{}, Specs: map[string]*SpecFunc{}, GhostFields: map[string]*GhostField{}, GhostVars: map[string]*TypeExpr{}, GhostVarPkg: map[string]string{}}
 	type src struct{ pkg, path string }
 	var files []src
 	_ = shorts
@@ -977,6 +979,22 @@ func (C *Contracts) parseStatements(pkg, path string, stmts []rawLine) (err erro
 			C.Lemmas = append(C.Lemmas, lm)
 			curLemma = lm
 			cur, curLoop = nil, nil
+		case "ghostvar":
+			f := strings.Fields(rest)
+			if len(f) < 2 || !strings.HasPrefix(f[0], "$") {
+				return cerr(st, "bad ghostvar declaration")
+			}
+			toks, err := lex(strings.Join(f[1:], " "))
+			if err != nil {
+				return cerr(st, "%v", err)
+			}
+			p := &parser{toks: toks, src: rest}
+			T, ok := p.tryParseType()
+			if !ok {
+				return cerr(st, "bad ghostvar type")
+			}
+			C.GhostVars[f[0]] = T
+			C.GhostVarPkg[f[0]] = pkg
 		case "field":
 			// field Type.$name T
 			f := strings.Fields(rest)
